@@ -209,7 +209,8 @@ pub fn run_property(prop: &Property, ctx: &mut Ctx, journal: &Journal, only_phas
                     failure_persistence: None,
                     rng_algorithm: RngAlgorithm::ChaCha,
                     rng_seed: RngSeed::Fixed(seed),
-                    max_shrink_iters: 4000,
+                    max_shrink_iters: 1500,
+                    max_shrink_time: 90_000,
                     max_global_rejects: 1,
                     ..Config::default()
                 };
